@@ -70,6 +70,8 @@ func generate(rng *rand.Rand, prop, tier string) *Scenario {
 	}
 	c.GCPeriodS = oneOf(rng, 30, 120, 120)
 	c.CacheSyncMs = oneOf(rng, 0, 0, 500, 2000, 20000, 100000)
+	// the reconciler waits 1 s between passes for its cache to catch up: lags stay below that
+	c.CacheLagMs = oneOf(rng, 0, 0, 100, 500)
 	c.HeartbeatS = oneOf(rng, 20, 60, 60, 300)
 	npre := rng.IntN(c.Adapters)
 	for i := 0; i < npre; i++ {
